@@ -1,9 +1,333 @@
-"""Replay search on the real code (placeholder: returns no input yet)."""
+"""Replay search on the REAL code: for a failed Verus obligation whose postcondition is `result == spec_fn(arguments)`,
+generate a small Rust program that links the real cgmath (path dependency on /repo), calls the real function on
+pseudo-random inputs (seeded by VERIF_SEED) and compares every component with the spec function evaluated in f64
+(the spec function's flat rendering from tools/sym.py, translated to Rust).  The first disagreement is the replayable input.
+"""
+import json
+import os
+import re
+import shutil
+import subprocess
+
+from driver import ROOT, CACHE, sh
+import sym
+from sym import R, B, Struct
+
+RDIR = os.path.join(CACHE, 'replay')
+
+
+def all_struct_classes():
+    out = {}
+    stack = list(Struct.__subclasses__())
+    while stack:
+        c = stack.pop()
+        stack += c.__subclasses__()
+        if c.TYPE:
+            out[c.TYPE.replace(' ', '')] = c
+    return out
+
+
+def rust_expr(a, env):
+    k = a[0]
+    if k == 'var':
+        return env[a[1]]
+    if k == 'lit':
+        return '(%s as f64)' % (a[1] if '.' in a[1] else a[1] + '.0')
+    if k == 'op':
+        return '(%s %s %s)' % (rust_expr(a[2], env), a[1], rust_expr(a[3], env))
+    if k == 'fn':
+        args = [rust_expr(x, env) for x in a[2]]
+        f = a[1]
+        if f == 'r_pi':
+            return 'std::f64::consts::PI'
+        if f == 'r_atan2':
+            return '(%s).atan2(%s)' % (args[0], args[1])
+        if f == 'r_rem':
+            return '(%s %% %s)' % (args[0], args[1])
+        m = {'r_sqrt': 'sqrt', 'r_sin': 'sin', 'r_cos': 'cos', 'r_tan': 'tan', 'r_asin': 'asin', 'r_acos': 'acos', 'r_atan': 'atan', 'r_abs': 'abs'}
+        return '(%s).%s()' % (args[0], m[f])
+    if k == 'ite':
+        return '(if %s { %s } else { %s })' % (rust_bool(a[1], env), rust_expr(a[2], env), rust_expr(a[3], env))
+    raise ValueError(a)
+
+
+def rust_bool(a, env):
+    k = a[0]
+    if k == 'cmp':
+        return '(%s %s %s)' % (rust_expr(a[2], env), a[1], rust_expr(a[3], env))
+    if k == 'and':
+        return '(%s && %s)' % (rust_bool(a[1], env), rust_bool(a[2], env))
+    if k == 'or':
+        return '(%s || %s)' % (rust_bool(a[1], env), rust_bool(a[2], env))
+    if k == 'not':
+        return '(!%s)' % rust_bool(a[1], env)
+    raise ValueError(a)
+
+
+def leaves_paths(cls, prefix=''):
+    out = []
+    for fn, fc in cls.FIELDS:
+        p = prefix + '.' + fn
+        if fc is R:
+            out.append(p)
+        else:
+            out += leaves_paths(fc, p)
+    return out
+
+
+def rust_type(t):
+    """Verus/expansion type text -> concrete Rust type at f64"""
+    t = re.sub(r"'[a-z_]+\s*", '', t)
+    t = re.sub(r'\bSc\b|\bS\b', 'f64', t)
+    t = t.replace('A::Unitless', 'f64')
+    return t
+
+
+def literal(cls, name, nvals):
+    """Rust literal of a value of sym class cls built from fresh random scalars; returns (text, [scalar names])"""
+    if cls is R:
+        nm = 'x%d' % len(nvals)
+        nvals.append(nm)
+        return nm
+    ctor = cls.TYPE.split('<')[0]
+    parts = []
+    tuple_like = all(fn.isdigit() for fn, _ in cls.FIELDS)
+    for fn, fc in cls.FIELDS:
+        parts.append(literal(fc, name, nvals) if tuple_like else '%s: %s' % (fn, literal(fc, name, nvals)))
+    if tuple_like:
+        return '%s(%s)' % (ctor, ', '.join(parts))
+    return '%s { %s }' % (ctor, ', '.join(parts))
+
+
+class NoReplay(Exception):
+    pass
+
+
+def plan(fn_rec, F):
+    """-> dict(call text builder...) or raise NoReplay"""
+    sig = fn_rec['sig']
+    ens = fn_rec['ensures']
+    classes = all_struct_classes()
+    # find an ensures clause of the form  LHS == specfn(args)
+    target = None
+    for e in ens:
+        m = re.match(r'^(ret(?:\.mat)?|\*final\(self\)) == ([a-z0-9_]+)\((.*)\)$', e.strip())
+        if m and m.group(2) in F:
+            target = m
+            break
+    if not target:
+        raise NoReplay('postcondition is not of the form result == spec_fn(args) with a generated spec function')
+    lhs, spec, argtext = target.group(1), target.group(2), target.group(3)
+    from extract import split_top
+    args = split_top(argtext) if argtext.strip() else []
+    selfty = sig['selfty']
+    params = sig['params']
+    # parameter table: name -> (rust type text, is_ref, is_mut, sym class)
+    ptab = []
+    for p in params:
+        p = p.strip()
+        m = re.fullmatch(r"(&)?\s*('[a-z_]+\s+)?(mut\s+)?self", p)
+        if m:
+            st = rust_type(selfty)
+            base = st.lstrip('&').strip()
+            ptab.append(('self', base, bool(m.group(1)) or st.startswith('&'), bool(m.group(3)) and bool(m.group(1))))
+            continue
+        m = re.match(r'(?:mut\s+)?([A-Za-z_][A-Za-z0-9_]*)\s*:\s*(.*)$', p, re.S)
+        if not m:
+            raise NoReplay('cannot parse parameter %r' % p)
+        ty = rust_type(m.group(2).strip())
+        if ty == 'Self':
+            ty = rust_type(selfty).lstrip('&').strip()
+        if ty == 'A':
+            ty = 'Rad<f64>'
+        ptab.append((m.group(1), ty.lstrip('&').strip(), ty.startswith('&'), ty.startswith('&mut')))
+    decls = []
+    nvals = []
+    env_by_param = {}
+    for (nm, ty, is_ref, is_mut) in ptab:
+        key = ty.replace('f64', 'Sc').replace(' ', '')
+        if ty == 'f64':
+            cls = R
+        elif key in classes:
+            cls = classes[key]
+        elif ty in ('usize', 'isize', 'bool'):
+            raise NoReplay('parameter type %s not supported by the replay generator' % ty)
+        else:
+            raise NoReplay('no symbolic class for parameter type %s' % ty)
+        start = len(nvals)
+        lit = literal(cls, nm, nvals)
+        decls.append((nm, ty, is_ref, is_mut, cls, lit, nvals[start:]))
+    # spec arguments -> symbolic values over the scalar names
+    def sym_of(cls, names):
+        it = iter(names)
+
+        def build(c):
+            if c is R:
+                n = next(it)
+                return R(n, n, ('var', n))
+            return c(*[build(fc) for _, fc in c.FIELDS])
+        return build(cls)
+    symvals = {d[0]: sym_of(d[4], d[6]) for d in decls}
+    call_args = []
+    spec_args = []
+    for a in args:
+        a = a.strip()
+        a2 = a.lstrip('*').strip()
+        a2 = re.sub(r'^old\((.*)\)$', r'\1', a2)
+        if a2 in symvals:
+            spec_args.append(symvals[a2])
+        else:
+            raise NoReplay('spec argument %r is not a parameter' % a)
+    res = F[spec](*spec_args)
+    if isinstance(res, R):
+        res_leaves = [res]
+        res_paths = ['']
+    elif isinstance(res, B):
+        raise NoReplay('boolean result')
+    else:
+        res_leaves = res.leaves()
+        res_paths = leaves_paths(type(res))
+    env = {n: n for n in nvals}
+    expected = [rust_expr(l.ast, env) for l in res_leaves]
+    uses_fn = any(('.sqrt()' in e or '.sin()' in e or '.cos()' in e or '.tan()' in e or 'atan' in e or 'acos' in e or 'asin' in e or '/' in e or '%' in e) for e in expected)
+    # the call
+    trait = sig['trait']
+    st = rust_type(selfty)
+    if trait:
+        callee = '<%s as %s>::%s' % (st, rust_type(re.sub(r'^(::)?(core|std)::[a-z]+::', '', trait)), sig['fn'])
+    else:
+        callee = '<%s>::%s' % (st.lstrip('&').strip(), sig['fn'])
+    argv = []
+    for (nm, ty, is_ref, is_mut, cls, lit, names) in decls:
+        argv.append(('&mut ' if is_mut else '&' if is_ref else '') + 'v_' + nm)
+    got_root = 'r'
+    if lhs == '*final(self)':
+        got_root = 'v_self'
+    elif lhs == 'ret.mat':
+        got_root = 'r'
+        res_paths = ['.mat' + p for p in res_paths]
+    return dict(nvals=nvals, decls=decls, callee=callee, argv=argv, got_root=got_root, paths=res_paths, expected=expected,
+                exact=not uses_fn, spec=spec, lhs=lhs)
+
+
+def program(pl, seed, n_points, fixed=None):
+    lines = ['#![allow(unused_mut, unused_variables, unused_imports, non_snake_case, unused_parens)]', 'use cgmath::*;', 'use std::ops::*;',
+             'fn main() {', '    let mut st: u64 = %du64.wrapping_mul(6364136223846793005).wrapping_add(1442695040888963407);' % seed,
+             '    let mut rnd = move || -> f64 { st = st.wrapping_mul(6364136223846793005).wrapping_add(1442695040888963407); (((st >> 33) % 9) as i64 - 4) as f64 };',
+             '    for it in 0..%d {' % n_points]
+    for k, n in enumerate(pl['nvals']):
+        if fixed is not None:
+            lines.append('        let %s: f64 = %r;' % (n, float(fixed[k])))
+        else:
+            lines.append('        let %s: f64 = rnd();' % n)
+    for (nm, ty, is_ref, is_mut, cls, lit, names) in pl['decls']:
+        lines.append('        let mut v_%s: %s = %s;' % (nm, ty, lit))
+    lines.append('        let r = %s(%s);' % (pl['callee'], ', '.join(pl['argv'])))
+    for path, exp in zip(pl['paths'], pl['expected']):
+        lines.append('        { let got: f64 = %s%s; let want: f64 = %s;' % (pl['got_root'], path, exp))
+        if pl['exact']:
+            cond = 'got != want && !(got.is_nan() && want.is_nan())'
+        else:
+            cond = '(got - want).abs() > 1e-9 * (1.0 + want.abs()) && !(got.is_nan() || want.is_nan() || got.is_infinite() || want.is_infinite())'
+        lines.append('          if %s { println!("MISMATCH component={} got={:?} want={:?} inputs={:?}", "%s", got, want, vec![%s]); return; } }' % (
+            cond, path or 'result', ', '.join(pl['nvals'])))
+    lines.append('    }')
+    lines.append('    println!("AGREE points=%d");' % n_points)
+    lines.append('}')
+    return '\n'.join(lines) + '\n'
+
+
+def build_and_run(text):
+    os.makedirs(os.path.join(RDIR, 'src'), exist_ok=True)
+    open(os.path.join(RDIR, 'Cargo.toml'), 'w').write(
+        '[package]\nname = "cgmath-replay"\nversion = "0.1.0"\nedition = "2018"\n[dependencies]\ncgmath = { path = "/repo" }\n[workspace]\n')
+    try:
+        shutil.copy('/repo/Cargo.lock', os.path.join(RDIR, 'Cargo.lock'))
+    except Exception:
+        pass
+    open(os.path.join(RDIR, 'src', 'main.rs'), 'w').write(text)
+    env = dict(os.environ, CARGO_NET_OFFLINE='true')
+    rc, so, se, _ = sh(['cargo', 'run', '--offline', '-q'], timeout=600, cwd=RDIR, env=env)
+    return rc, so, se
+
+
+def find_fn(prop, obligation, tier):
+    """re-create the unit and find the function record + the spec dictionary F"""
+    import units
+    from extract import Source
+    import driver
+    src = Source(driver.expand())
+    captured = {}
+    # the unit builders create their F internally; re-run them and pick F up through the shared sym registry
+    ulist = units.UNITS[prop](src, tier)
+    for u in ulist:
+        u.emit()
+        for fr in u.functions:
+            if fr['anchor'] == obligation:
+                return fr, u
+    return None, None
+
+
+def spec_dict():
+    """all generated spec functions (python callables) by name"""
+    from sym import SpecLib
+    import c_vector, c_point, c_matrix, c_quat, c_angle, c_rot, c_conv
+    lib = SpecLib()
+    F = c_vector.build(lib)
+    c_point.build(lib, F)
+    c_matrix.build(lib, F)
+    c_matrix.build_c02(lib, F)
+    c_quat.build(lib, F)
+    c_angle.build(lib, F)
+    c_rot.build(lib, F)
+    c_conv.build(lib, F)
+    try:
+        import c_proj
+        c_proj.build(lib, F)
+    except Exception:
+        pass
+    return {k: v for k, v in F.items() if callable(v)}
+
+
 def search(prop, failure, seed, tier):
-    return {'input': None, 'note': 'no replay generator for this obligation yet'}
+    if 'pass' not in failure:
+        return {'input': None, 'note': 'not a Verus obligation'}
+    fr, u = find_fn(prop, failure.get('obligation'), tier)
+    if fr is None:
+        return {'input': None, 'note': 'function record not found'}
+    F = spec_dict()
+    try:
+        pl = plan(fr, F)
+    except NoReplay as e:
+        return {'input': None, 'note': 'no replay generator for this obligation: %s' % e, 'tags': fr.get('tags', [])}
+    npts = 2000 if tier == 'thorough' else 400
+    rc, so, se = build_and_run(program(pl, seed, npts))
+    if rc != 0:
+        return {'input': None, 'note': 'replay program failed to build/run: ' + (se or so)[-600:], 'tags': fr.get('tags', [])}
+    m = re.search(r'MISMATCH component=(\S*) got=(\S+) want=(\S+) inputs=\[(.*)\]', so)
+    if m:
+        vals = [float(x) for x in m.group(4).split(',') if x.strip()]
+        return {'input': dict(zip(pl['nvals'], vals)), 'values': vals, 'component': m.group(1), 'got': m.group(2), 'want': m.group(3),
+                'call': '%s(%s)' % (pl['callee'], ', '.join(pl['argv'])), 'spec_function': pl['spec'],
+                'how': 'real cgmath (path dependency on /repo) evaluated at f64 on integer-valued inputs against the spec function; re-run with ./check %s --replay <this file>' % prop,
+                'tags': fr.get('tags', [])}
+    return {'input': None, 'agree_points': npts, 'exact': pl['exact'], 'tags': fr.get('tags', []),
+            'note': 'the real function agrees with the spec function on %d pseudo-random points' % npts}
+
 
 def replay_file(prop, path):
-    import json
     d = json.load(open(path))
-    print(json.dumps(d, indent=1)[:3000])
-    return 0
+    rp = d.get('replay') or {}
+    print('obligation: %s' % d.get('obligation'))
+    if d.get('verifier') == 'kani':
+        print('Kani counterexample (concrete playback unit test):\n%s' % (rp.get('input') or '(none)'))
+        return 0
+    if not rp.get('values'):
+        print('no failing input recorded; verifier output:\n%s' % (d.get('verifier_output') or '')[:2000])
+        return 0
+    fr, u = find_fn(prop, d.get('obligation'), 'quick')
+    F = spec_dict()
+    pl = plan(fr, F)
+    rc, so, se = build_and_run(program(pl, 1, 1, fixed=rp['values']))
+    print(so.strip() or se[-500:])
+    return 1 if 'MISMATCH' in so else 0
